@@ -33,11 +33,12 @@ void __rt_assume_fail(void);
 #ifdef __CPROVER__
 u8 __VERIFIER_nondet_u8(void); u16 __VERIFIER_nondet_u16(void); u32 __VERIFIER_nondet_u32(void);
 u64 __VERIFIER_nondet_u64(void); _Bool __VERIFIER_nondet_bool(void);
-static inline u8 nondet_u8(void) { u8 nd_val_u8 = __VERIFIER_nondet_u8(); return nd_val_u8; }
-static inline u16 nondet_u16(void) { u16 nd_val_u16 = __VERIFIER_nondet_u16(); return nd_val_u16; }
-static inline u32 nondet_u32(void) { u32 nd_val_u32 = __VERIFIER_nondet_u32(); return nd_val_u32; }
-static inline u64 nondet_u64(void) { u64 nd_val_u64 = __VERIFIER_nondet_u64(); return nd_val_u64; }
-static inline _Bool nondet_bool(void) { _Bool nd_val_bool = __VERIFIER_nondet_bool(); return nd_val_bool; }
+extern u8 nd_val_u8; extern u16 nd_val_u16; extern u32 nd_val_u32; extern u64 nd_val_u64; extern _Bool nd_val_bool;
+static inline u8 nondet_u8(void) { nd_val_u8 = __VERIFIER_nondet_u8(); return nd_val_u8; }
+static inline u16 nondet_u16(void) { nd_val_u16 = __VERIFIER_nondet_u16(); return nd_val_u16; }
+static inline u32 nondet_u32(void) { nd_val_u32 = __VERIFIER_nondet_u32(); return nd_val_u32; }
+static inline u64 nondet_u64(void) { nd_val_u64 = __VERIFIER_nondet_u64(); return nd_val_u64; }
+static inline _Bool nondet_bool(void) { nd_val_bool = __VERIFIER_nondet_bool(); return nd_val_bool; }
 #else
 u8 nondet_u8(void);
 u16 nondet_u16(void);
@@ -60,13 +61,16 @@ extern void *__exc_obj;       /* thrown object */
 extern int __exc_ti;          /* translator-assigned id of the thrown type_info */
 extern int __exc_caught_depth;
 extern u64 __exc_throw_count;
-extern u8 __exc_storage[4][256];
-extern int __exc_slot;
 
+void *malloc(size_t);
+/* one statically allocated, pointer-typed exception slot: c-dns exception objects are {vptr, const char*};
+ * a fresh malloc per throw site made CBMC merge every object's cells at every join (measured: 300k steps) */
+struct __exc_slot_t { void *p[8]; };
+extern struct __exc_slot_t __exc_slot_obj;
 static inline void *__exc_alloc(u64 n) {
-  __CPROVER_assert(n <= 256, "rt: exception object fits the model slot");
-  __exc_slot = (__exc_slot + 1) & 3;
-  return (void *)__exc_storage[__exc_slot];
+  __CPROVER_assert(n <= sizeof(struct __exc_slot_t), "rt: exception object fits the model slot");
+  __CPROVER_assert(__exc_caught_depth == 0, "rt: no exception is being handled while another one is allocated (single-slot model)");
+  return (void *)&__exc_slot_obj;
 }
 static inline void __exc_throw(void *obj, int ti) {
   __exc_active = 1; __exc_obj = obj; __exc_ti = ti; __exc_throw_count++;
@@ -85,7 +89,6 @@ static inline void __verif_terminate(void) {
 
 /* ---- memory */
 #ifdef __CPROVER__
-void *malloc(size_t);
 void free(void *);
 #endif
 extern u64 __verif_alloca_max;   /* largest variable-size stack request seen (C14) */
@@ -110,6 +113,14 @@ static inline void __v_memmove(u8 *d, const u8 *s, u64 n) {
 static inline void __v_memset(u8 *d, u8 c, u64 n) {
   for (u64 i = 0; i < n; i++) d[i] = c;
 }
+
+/* constant-length variants: the checker's built-in models (no loop) */
+void *memcpy(void *, const void *, size_t);
+void *memmove(void *, const void *, size_t);
+void *memset(void *, int, size_t);
+#define __v_memcpy_c(d, s, n) ((void)memcpy((d), (s), (n)))
+#define __v_memmove_c(d, s, n) ((void)memmove((d), (s), (n)))
+#define __v_memset_c(d, c, n) ((void)memset((d), (c), (n)))
 
 /* ---- SSE4.2 CRC-32C (Castagnoli, reflected polynomial 0x82F63B78), bit-exact */
 static inline u32 __crc32c_byte(u32 crc, u8 b) {
